@@ -100,11 +100,13 @@ class BaseElementLocator
     void move_elements_forward(std::size_t from, std::size_t to, std::byte* memory_begin) noexcept
     {
         const auto diff = detail::move_elements(from, to, memory_begin, *this);
-        std::transform(element_addresses_.begin() + from, element_addresses_.end(), element_addresses_.begin() + to,
-                       [&](auto address)
-                       {
-                           return address - diff;
-                       });
+        const auto new_end = std::transform(element_addresses_.begin() + from, element_addresses_.end(),
+                                            element_addresses_.begin() + to,
+                                            [&](auto address)
+                                            {
+                                                return address - diff;
+                                            });
+        *new_end = static_cast<std::size_t>(last_element_ - memory_begin) - diff;
     }
 
     void make_room_for_last_element_at(std::size_t index, std::size_t size_of_element, std::byte* memory_begin) noexcept
